@@ -129,6 +129,8 @@ def run(ck):
     ck.oblige("correspondence:scatter==astropy.biweight_scale(model multiset); SourceProperties inherits", "correspondence",
               not any("scatter" in x or "SourceProperties" in x for _, r in oracle_bad for x in r["oracle"]),
               "; ".join(oracle_bad[0][1]["oracle"]) if oracle_bad else "")
+    ck.oblige("oracle:estimate uses exactly the unmasked border pixels, invariant under interior / masked changes (brute force)", "correspondence",
+              not oracle_bad, "; ".join(oracle_bad[0][1]["oracle"][:2]) if oracle_bad else "")
     for c, r in list(zip(cases, res))[:2] + list(zip(cases, res))[-2:]:
         ck.samples.append({"H": c["H"], "W": c["W"], "n": c["n"], "mode": c["mode"],
                            "masked_pixels": None if c["mask"] is None else sum(map(sum, c["mask"])),
